@@ -160,6 +160,12 @@ C15_NoStuckJoin ==
         \/ \E k \in 1..Len(polls) : polls[k].s = joiners[i].s
         \/ wsw[joiners[i].s] \in {"new", "run"}
 
+\* the observable history of a session (events, deliveries) is only ever extended
+\* (with the shape invariants above this is the history contract EioServerHistory)
+HPrefix(a, b) == Len(a) <= Len(b) /\ SubSeq(b, 1, Len(a)) = a
+H_AppendOnly ==
+    [][\A s \in Sid : HPrefix(g.ev[s], g.ev'[s]) /\ HPrefix(g.deliv[s], g.deliv'[s])]_vars
+
 \* disconnect() without a sid: when the clients are closed together (asyncio), or none of
 \* the closes has to wait, every client of the table has had its disconnect by the time
 \* the call proceeds
